@@ -243,6 +243,40 @@ theorem quiet_iff (quiet : Bool) (files : List (List Int)) :
     · omega
     · omega
 
+/-- **the summary says "refactoring necessary" exactly when something is listed** (the branch of
+`CheckResult.report` that prints the count of functions that need refactoring, as opposed to "no
+refactoring necessary"), for every multiset of lengths over any number of files, quiet or not -/
+theorem says_refactoring_iff (quiet : Bool) (files : List (List Int)) :
+    (checkCommand quiet files).saysRefactoring = true ↔ (checkCommand quiet files).listed.flatten ≠ [] := by
+  have hc := summary_count_eq quiet files
+  have hs := checkAll_spec files
+  have hnn1 : 0 ≤ (checkAll files).hard := by rw [hs.2.1]; omega
+  have hnn2 : 0 ≤ (checkAll files).unm := by rw [hs.2.2]; omega
+  unfold checkCommand at hc
+  simp only [check_summary_count_nf] at hc
+  unfold checkCommand
+  simp only [decide_eq_true_eq, check_says_refactoring]
+  constructor
+  · intro h hnil
+    rw [hnil] at hc
+    simp at hc
+    omega
+  · intro hne
+    have hpos : 0 < (checkAll files).files.flatten.length := List.length_pos_iff.2 hne
+    have : (0 : Int) < ((checkAll files).files.flatten.length : Int) := by exact_mod_cast hpos
+    omega
+
+/-- hence the summary line and the listing never disagree: "refactoring necessary" iff the
+summary count is positive iff at least one function is listed -/
+theorem says_refactoring_iff_count (quiet : Bool) (files : List (List Int)) :
+    (checkCommand quiet files).saysRefactoring = true ↔ 0 < (checkCommand quiet files).count := by
+  rw [says_refactoring_iff, summary_count_eq]
+  constructor
+  · intro hne
+    exact_mod_cast List.length_pos_iff.2 hne
+  · intro h
+    exact List.length_pos_iff.1 (by exact_mod_cast h)
+
 /-! ## non-vacuity: all boundary neighbours -/
 
 example : (List.map cat [14, 15, 16, 17, 29, 30, 31, 32, 59, 60, 61, 62]) =
@@ -264,5 +298,9 @@ example : (checkCommand true [[10, 30], [5]]).printed = false := by
   obtain ⟨_, ⟨ms, hms, rfl⟩, hvl⟩ := hv
   have := (mem_fileRisks ms v).1 hvl
   simp at hms; rcases hms with rfl | rfl <;> simp at this <;> omega
+
+example : (checkCommand true [[10, 30], [5]]).saysRefactoring = false ∧
+    (checkCommand true [[10, 31], [5]]).saysRefactoring = true ∧
+    (checkCommand false [[10, 31], [5]]).listed = [[31], []] := by decide +kernel
 
 end CL.C02
